@@ -17,7 +17,8 @@ THEOREMS = [P + t for t in ("identity_unset_refused", "identity_names_listed", "
                               "identity_props_protected", "identity_merge_class_counterexample",
                               "add_node_existing_id_refused", "nid_unique", "nid_unique_reachable",
                               "merge_keeps_edges", "merge_policy", "merge_failure_atomic",
-                              "shared_refines_spec", "shared_refines_history", "disjoint_refines_spec", "backends_agree")]
+                              "merge_frame", "shared_refines_spec", "shared_refines_history", "disjoint_refines_spec",
+                              "disjoint_refines_history", "backends_agree")]
 TRUSTED_BASE = [
     "Model/Store.lean, Model/DStore.lean mirror the two backends method by method; Model/AGraph.lean (`AGraph.step`) is the "
     "reference model of the documented interface (hand-written; all three are run in lock step against the real classes)",
@@ -25,6 +26,9 @@ TRUSTED_BASE = [
     "already exists keeps its own properties), networkx_query.search_nodes are modelled, not verified",
     "gen/storeconsts.py: NO_UNSET_PROPERTIES, NETWORKX_LABEL and property-name constants read from the source",
     "list results are compared as sorted lists (dict/set order is not part of the interface)",
+    "harness/props/c05.py `Ref`: an independent python reference of the documented interface used only by the oracle "
+    "(three-way comparison); the Lean `AGraph.step` is tied to the code by its own correspondence stream (A)",
+    "the stores' threading.Lock is replaced by a counting stand-in in single-threaded histories (locks are C20's)",
 ]
 ASSUMPTIONS = [
     "property values are strings; updates never write GraphID or NodeID (re-homing is C14's; the disjoint store cannot express it)",
